@@ -3,6 +3,7 @@
 #![allow(unused_imports, dead_code, unused_variables, unused_mut, non_snake_case, unused_parens)]
 use vstd::prelude::*;
 use std::collections::HashMap;
+use std::collections::HashSet;
 
 mod syn {
     use vstd::prelude::*;
